@@ -2368,7 +2368,7 @@ Section Walk.
     assert (Hnode : i_node y = Some j) by (unfold fiS in PS; injection PS as _ PS _; congruence).
     assert (N3 : NoEntry s2 i) by (eapply unblocked_NoEntry; [exact (proj1 (proj2 (proj2 J3)))|exact Hy|exact Hb]).
     assert (J4 : Jst an h [] s3) by (apply (Jst_put_same [] s2 s3 i y y4 J3 N3 Hy Hidy eq_refl Ei4 En4 Ee4 Een4 Ea4 El4)).
-    assert (S4 : SrvInv cf [] s3) by (apply (SrvInv_VS cf [] s2 s3); [apply (VS_put_ind s2 s3 y y4); [rewrite Hidy; exact Hy|reflexivity|exact Ei4|exact En4]|exact HS1]).
+    assert (S4 : SrvInv cf [] s3) by (apply (SrvInv_VS cf [] s2 s3); [apply (VS_put_ind s2 s3 y y4); [change (i_id y4) with (i_id y); rewrite Hidy; exact Hy|reflexivity|exact Ei4|exact En4]|exact HS1]).
     assert (Hy4 : find_ind i (inds s3) = Some y4) by (rewrite Ei4; rewrite <- Hidy at 1; change (i_id y) with (i_id y4); apply find_put_same).
     assert (N4 : NoEntry s3 i) by (intros d0 fr He; apply (entry_nodes s2 s3) in He; [exact (N3 d0 fr He)|exact En4]).
     clear HC1 HS1 J3 N3.
@@ -2389,7 +2389,7 @@ Section Walk.
         + intros Hx. change (i_server y4) with (i_server y) in Hx. congruence.
       - apply ret_spec in E as [_ ->]. split; [exact J4|]. split; [exact S4|]. split; [reflexivity|]. split; [exact Hy4|].
         assert (Hnd3 : exists n3, nodeZ s3 j = Some n3 /\ nd_inf n3 = nd_inf nd).
-        { assert (ES : VS s3 = VS s) by (rewrite <- ES03; apply (VS_put_ind s2 s3 y y4); [rewrite Hidy; exact Hy|reflexivity|exact Ei4|exact En4]).
+        { assert (ES : VS s3 = VS s) by (rewrite <- ES03; apply (VS_put_ind s2 s3 y y4); [change (i_id y4) with (i_id y); rewrite Hidy; exact Hy|reflexivity|exact Ei4|exact En4]).
           pose proof (VW_node fnS fiS fgS s s3 j ES) as Hv. rewrite Hn in Hv. destruct (nodeZ s3 j) as [n3|]; [|discriminate Hv].
           cbn in Hv. unfold nv, fnS in Hv. injection Hv as _ _ _ Hv. eauto. }
         destruct Hnd3 as (n3 & Hn3 & Hinf3).
